@@ -86,6 +86,7 @@ class Engine:
         self.model = None
         self.nfresh = 0
         self.dom = {}               # per-path: var id -> Mask (sound over-approximation)
+        self.memo = {}              # per-path scratch for the symbolic layers
         self.base_assumptions = []
         # statistics
         self.paths = 0
@@ -149,9 +150,9 @@ class Engine:
         return z3.Bool(self.fresh_name(prefix))
 
     # ------------------------------------------------------------------ decisions
-    def assume(self, expr):
+    def assume(self, expr, dom=None):
         """Add a constraint to the path condition (recorded on the trail so that re-execution
-        does not add it twice)."""
+        does not add it twice).  dom optionally gives {var id: (var, Mask)} implied by expr."""
         if isinstance(expr, SymBool):
             expr = expr.e
         if isinstance(expr, bool):
@@ -173,7 +174,10 @@ class Engine:
         self.solver.push()
         self.solver.add(expr)
         ent = _Entry(expr, True, None, forced=True)
-        ent.dom_t, _ = _auto_dom(expr)
+        if dom is not None:
+            ent.dom_t = dom
+        else:
+            ent.dom_t, _ = _auto_dom(expr)
         self.trail.append(ent)
         self.pos += 1
         self._narrow(ent.dom_t)
@@ -331,6 +335,7 @@ class Engine:
                 self.pos = 0
                 self.nfresh = 0
                 self.dom = {}
+                self.memo = {}
                 self.paths += 1
                 kind, payload = self._run_one(fn)
                 if on_path is not None:
